@@ -5,6 +5,7 @@ Case kinds (fields separated by `|`):
 * `seq|<serial>|<ops>|<probe ids>`                       a sequential history
 * `conc|<serial>|<ops>|<prog>/<prog>/…|<sched>|<probes>`   set-up history, thread programs, the recorded linearization
 * `site|<serial>|<ops>|<micro prog>/…|<sched>|<probes>`    call-site programs as separate atomic steps
+* `peerup|…` same fields as `site`: the real `PeerStates::add_peer_config` call site (only the table is printed)
 
 Op syntax: `R` · `U.<id>.<info>` · `G.<id>` · `K.<parent>` · `F.<p|r>.<info>.<hint>` · `A.<p|r>.<info>.<hint>`;
 micro ops: `f.<p|r>.<info>.<hint>` · `r` · `u.<info>`; `<info>` = eight `,`-separated fields, `-` = None.
@@ -95,6 +96,15 @@ def runCase (line : String) : String :=
       let r0 := (run M32 ⟨ser, []⟩ pre).1
       let s := runSite M32 r0 progs sched
       "/".intercalate (s.ts.map fun t => s!"i{t.cur}") ++ s!" => {showProbes s.reg probes}"
+    | _, _, _, _, _ => "bad-case"
+  | ["peerup", ser, pre, progs, sched, probes] =>
+    -- the real `add_peer_config` call site: only the register is observable
+    match ser.toNat?, (words pre).mapM parseOp, (progs.splitOn "/").mapM (fun p => (words p).mapM parseMicro),
+          (words sched).mapM (·.toNat?), (words probes).mapM (·.toNat?) with
+    | some ser, some pre, some progs, some sched, some probes =>
+      let r0 := (run M32 ⟨ser, []⟩ pre).1
+      let s := runSite M32 r0 progs sched
+      s!"=> {showProbes s.reg probes}"
     | _, _, _, _, _ => "bad-case"
   | _ => "bad-case"
 
